@@ -139,7 +139,7 @@ I_C05_bound == Inv_C05_bound(S)
 I_C05_nocrash == run # "crashed"
 I_C07_bounds == Inv_C07_bounds(S)
 I_C07_conserved == Inv_C07_conserved(S)
-I_C08_limits == Inv_C08_limits(S) /\ Inv_C08_arrays(S)
+I_C08_limits == Inv_C08_limits(S) /\ Inv_C08_arrays(S) /\ Inv_C08_budget(S)
 I_C09_prompt == Inv_C09_prompt(S)
 I_C09_count == Inv_C09_count(S) /\ Inv_C09_counter(S)
 I_C15_reported == Inv_C15_reported(S)
